@@ -15,6 +15,9 @@ def args_of(o, inp, out, alt):
     t = ["-t", str(o["threads"])]
     if c == "oligo":
         a = ["comp", "oligo", "-i", "-" if o["stdin"] else inp, "-o", out, "-k", str(o["k"]), "-p", o["preset"]] + t
+        # flags as separate tokens or as one cluster of short options, in either order
+        if o["counts"] and o["header"] and o["threads"] in (0, 4):
+            return a + (["-Hc"] if o["threads"] == 0 else ["-cH"])
         return a + (["-c"] if o["counts"] else []) + (["-H"] if o["header"] else [])
     if c == "cgr":
         a = ["comp", "cgr", "-i", inp, "-o", out] + t
